@@ -15,6 +15,7 @@ import (
 	"strings"
 
 	refaztec "verif/ref/aztec"
+	refoned "verif/ref/oned"
 
 	"github.com/makiuchi-d/gozxing"
 	"github.com/makiuchi-d/gozxing/aztec"
@@ -193,6 +194,33 @@ func init() {
 	one("code128", oned.NewCode128Writer, gozxing.BarcodeFormat_CODE_128, "Code128 1234567890", 1)
 	one("itf", oned.NewITFWriter, gozxing.BarcodeFormat_ITF, "12345678901234", 1)
 	one("codabar", oned.NewCodaBarWriter, gozxing.BarcodeFormat_CODABAR, "A12345B", 1)
+	builders["ean13+5"] = func() *image.Gray {
+		return refoned.Image(refoned.WithAddOn(refoned.EAN13("5901234123457"), refoned.AddOn5("52495"), 9), 1, 12, 12, 1)
+	}
+	builders["ean13+2"] = func() *image.Gray {
+		return refoned.Image(refoned.WithAddOn(refoned.EAN13("5901234123457"), refoned.AddOn2("12"), 9), 1, 12, 12, 1)
+	}
+	builders["upca+5"] = func() *image.Gray {
+		return refoned.Image(refoned.WithAddOn(refoned.UPCA("036000291452"), refoned.AddOn5("01999"), 9), 1, 12, 12, 1)
+	}
+	builders["ean8+2-wrong"] = func() *image.Gray {
+		return refoned.Image(refoned.WithAddOn(refoned.EAN8("96385074"), refoned.AddOn2WithParity("12", [2]bool{true, true}), 9), 1, 12, 12, 1)
+	}
+	builders["code39chk"] = func() *image.Gray {
+		m, err := refoned.Code39("CODE39"+string(refoned.Code39Check("CODE39")), 2)
+		if err != nil {
+			panic(err)
+		}
+		return refoned.Image(m, 1, 12, 12, 1)
+	}
+	one("code128gs1", oned.NewCode128Writer, gozxing.BarcodeFormat_CODE_128, "\u00f10112345678901231", 1)
+	one("itf6", oned.NewITFWriter, gozxing.BarcodeFormat_ITF, "123456", 1)
+	builders["dm-macro"] = func() *image.Gray {
+		return gray(must(dw().Encode("[)>\x1e05\x1dMACRO TEXT 123\x1e\x04", gozxing.BarcodeFormat_DATA_MATRIX, 0, 0, nil)), 3, 9)
+	}
+	builders["qr-gs1"] = func() *image.Gray {
+		return gray(must(qw().Encode("0112345678901231", gozxing.BarcodeFormat_QR_CODE, 0, 0, H{gozxing.EncodeHintType_GS1_FORMAT: true})), 3, 12)
+	}
 	builders["aztec-c"] = func() *image.Gray {
 		s, err := refaztec.EncodeAuto(refaztec.AutoEncode([]byte("Aztec compact")), 33)
 		if err != nil {
@@ -286,6 +314,9 @@ var needs = map[string][]string{
 	"qr-r-pure": {"qr-pure"}, "qr-r-located": {"qr-loc"}, "qr-r-v7-hard": {"qr-v7"}, "qr-r-eci": {"qr-eci"}, "qr-r-kanji": {"qr-kanji"}, "qr-r-multi": {"qr-loc"},
 	"dm-r-pure": {"dm-pure"}, "dm-r-located": {"dm-loc"}, "dm-r-rect": {"dm-rect"}, "aztec-r-compact": {"aztec-c"}, "aztec-r-full": {"aztec-f"},
 	"ean13-r": {"ean13"}, "ean13-r-multi": {"ean13-tall"}, "ean8-r": {"ean8"}, "upca-r": {"upca"}, "upce-r": {"upce"}, "code39-r": {"code39"}, "code39-r-ext": {"code39ext"},
+	"ean13-r-addon5": {"ean13+5"}, "ean13-r-addon2": {"ean13+2"}, "multi-r-upca-addon5": {"upca+5"}, "ean8-r-addon-wrong-parity": {"ean8+2-wrong"},
+	"ean13-r-addon-required": {"ean13+5"}, "code39-r-check": {"code39chk"}, "code128-r-gs1": {"code128gs1"}, "itf-r-allowed-lengths": {"itf6"},
+	"codabar-r-startend": {"codabar"}, "dm-r-macro": {"dm-macro"}, "qr-r-gs1": {"qr-gs1"},
 	"code93-r": {"code93"}, "code128-r": {"code128"}, "itf-r": {"itf"}, "codabar-r": {"codabar"}, "rss14-r": {"rss14"},
 }
 
@@ -380,6 +411,34 @@ func all() []opLit {
 		{"itf-r", func() string { return read(oned.NewITFReader(), img("itf"), nil) }},
 		{"codabar-r", func() string { return read(oned.NewCodaBarReader(), img("codabar"), nil) }},
 		{"rss14-r", func() string { return read(rss.NewRSS14Reader(), img("rss14"), nil) }},
+		{"ean13-r-addon5", func() string { return read(oned.NewEAN13Reader(), img("ean13+5"), nil) }},
+		{"ean13-r-addon2", func() string { return read(oned.NewEAN13Reader(), img("ean13+2"), nil) }},
+		{"multi-r-upca-addon5", func() string { return read(oned.NewMultiFormatUPCEANReader(nil), img("upca+5"), nil) }},
+		{"ean8-r-addon-wrong-parity", func() string { return read(oned.NewEAN8Reader(), img("ean8+2-wrong"), nil) }},
+		{"ean13-r-addon-required", func() string {
+			return read(oned.NewEAN13Reader(), img("ean13+5"), D{gozxing.DecodeHintType_ALLOWED_EAN_EXTENSIONS: []int{5}})
+		}},
+		{"code39-r-check", func() string { return read(oned.NewCode39ReaderWithFlags(true, false), img("code39chk"), nil) }},
+		{"code128-r-gs1", func() string {
+			return read(oned.NewCode128Reader(), img("code128gs1"), D{gozxing.DecodeHintType_ASSUME_GS1: true})
+		}},
+		{"itf-r-allowed-lengths", func() string {
+			return read(oned.NewITFReader(), img("itf6"), D{gozxing.DecodeHintType_ALLOWED_LENGTHS: []int{6, 10}})
+		}},
+		{"codabar-r-startend", func() string {
+			return read(oned.NewCodaBarReader(), img("codabar"), D{gozxing.DecodeHintType_RETURN_CODABAR_START_END: true})
+		}},
+		{"dm-r-macro", func() string { return read(datamatrix.NewDataMatrixReader(), img("dm-macro"), nil) }},
+		{"qr-r-gs1", func() string { return read(qrcode.NewQRCodeReader(), img("qr-gs1"), nil) }},
+		{"qr-w-gs1", func() string {
+			return write(qrcode.NewQRCodeWriter(), "0112345678901231", QR, 0, 0, H{gozxing.EncodeHintType_GS1_FORMAT: true})
+		}},
+		{"dm-w-macro", func() string {
+			return write(datamatrix.NewDataMatrixWriter(), "[)>\x1e06\x1dMACRO 06\x1e\x04", DM, 0, 0, nil)
+		}},
+		{"code128-w-forced-c", func() string {
+			return write(oned.NewCode128Writer(), "12345678", gozxing.BarcodeFormat_CODE_128, 0, 5, H{gozxing.EncodeHintType_FORCE_CODE_SET: "C"})
+		}},
 
 		{"rs-qr", func() string { return rsRoundTrip(reedsolomon.GenericGF_QR_CODE_FIELD_256, 19, 7, 256) }},
 		{"rs-dm", func() string { return rsRoundTrip(reedsolomon.GenericGF_DATA_MATRIX_FIELD_256, 44, 28, 256) }},
